@@ -25,4 +25,4 @@ ASSUMPTIONS = ["truncation is a prefix of the written file (interrupted write or
                "QM LINB only: LinearSection.loads_data / add_linear_from_array accept a short but item-aligned payload and the failure "
                "surfaces at the next section read; the model fails at once - same bucket for every truncated file (all other raw "
                "loaders raise at the same point as the model since 89f7dc3)"]
-PARTIAL = ["file-level decode_ok_only_if_padding_lost is proved for BQM files (exact threshold); for QM and expression files it is proved per section (section_ok_only_if_padding_lost) and the whole-file theorems give 'error or same content' without the exact threshold", 'decode_reads_in_bounds is not a theorem: the model reads through take/firstn only; on the implementation it is checked by the valgrind corpus cases', 'zip / npz containers and DQM files are not modelled']
+PARTIAL = ['decode_reads_in_bounds is not a theorem: the model reads through take/firstn only; on the implementation it is checked by the valgrind corpus cases', 'zip / npz containers and DQM files are not modelled (central directory located from the end of the file; CRC; deflate): their truncation behaviour is observed on the implementation at every prefix length']
